@@ -1,12 +1,13 @@
 import LekkerVerif.Model.Flatten
+import LekkerVerif.Proofs.Compose
 import LekkerVerif.Properties.C05
 
 /-! # C11 — flatten() preserves the scattering matrix and every parameter's meaning
 
 Structural part (what ends up where, termination) as theorems over placement trees; the composition of
-rename tables of the repaired code on the scenarios that failed on the pinned tree (kernel evaluation) and
-its agreement with the two-step simultaneous substitution of C05 on them.  The general theorem
-`renameFixed (composeTables P L) ≃ renameFixed L ∘ renameFixed P` is the next obligation (DESIGN.md). -/
+rename tables of the (repaired) code: the general theorem `C11_compose_general` — for every pair of injective
+tables the single table written by `flatten_top_level` acts on every visible parameter like the two nested
+renamings of C05 — and the scenarios that failed on the pinned tree, evaluated in the kernel. -/
 
 namespace Flatten
 
@@ -116,5 +117,38 @@ example : ∀ x ∈ ["pb"],
     (renameFixed (composeTables [("pb_u", "pb")] [("pb_v", "pb")]) (⟨[("pb_u", 1), ("pb_v", 2), ("pb", 3)]⟩ : Dict Nat)).get? x
       = (renameFixed [("pb_v", "pb")] (renameFixed [("pb_u", "pb")] (⟨[("pb_u", 1), ("pb_v", 2), ("pb", 3)]⟩ : Dict Nat))).get? x := by
   decide
+
+
+/-- **flatten composes rename tables correctly** (general): parent table `P` (top ↦ middle) over lower table `L`
+(middle ↦ bottom), both injective (distinct new names, distinct old names), the parent's new names not colliding with
+a name the lower structure makes visible unless the parent renames that name away (C05's "injective renaming");
+then for every dictionary `d` of top-level values and every bottom parameter `x` visible one level up under the
+name `m`, the table written by `flatten_top_level` gives `x` the value the two nested renamings give it -/
+theorem C11_compose_general {V : Type} (P L : Table) (d : Dict V)
+    (hPo : (P.map (·.2)).Nodup) (hPn : (P.map (·.1)).Nodup) (hLo : (L.map (·.2)).Nodup) (hLn : (L.map (·.1)).Nodup)
+    (hinj : ∀ t ∈ P.map (·.1), t ∈ L.map (·.1) → t ∈ P.map (·.2))
+    (x m : String) (hm : midName L x = some m) (hx : m ∈ P.map (·.1) → m ∈ P.map (·.2)) :
+    (renameFixed (composeTables P L) d).get? x = (renameFixed L (renameFixed P d)).get? x :=
+  compose_general P L d hPo hPn hLo hLn hinj x m hm hx
+
+/-- the composed table is again a table `update_params` applies as a simultaneous substitution, so the theorem
+can be iterated level by level (deep hierarchies) -/
+theorem C11_compose_wellformed (P L : Table)
+    (hPo : (P.map (·.2)).Nodup) (hPn : (P.map (·.1)).Nodup) (hLo : (L.map (·.2)).Nodup) (hLn : (L.map (·.1)).Nodup)
+    (hinj : ∀ t ∈ P.map (·.1), t ∈ L.map (·.1) → t ∈ P.map (·.2)) : ((composeTables P L).map (·.2)).Nodup :=
+  compose_olds_nodup P L hPo hPn hLo hLn hinj
+
+/-- non-vacuity: the hypotheses hold for a swap at the parent over a chain below (all four parameters visible) -/
+example : let P : Table := [("A", "B"), ("B", "A")]; let L : Table := [("B", "x"), ("A", "y")]
+    (P.map (·.2)).Nodup ∧ (P.map (·.1)).Nodup ∧ (L.map (·.2)).Nodup ∧ (L.map (·.1)).Nodup ∧
+    (∀ t ∈ P.map (·.1), t ∈ L.map (·.1) → t ∈ P.map (·.2)) ∧ midName L "x" = some "B" ∧ midName L "y" = some "A" := by
+  decide
+
+/-- the injectivity hypothesis is needed, and it is C05's quantifier: a parent that renames `b` to a name `a` the
+lower structure already exposes (without renaming `a` away) merges two parameters; the nested hierarchy then shields the
+lower one while a single table cannot — the two sides differ on exactly such inputs -/
+theorem C11_compose_needs_injective :
+    (renameFixed (composeTables [("a", "b")] [("a", "b")]) (⟨[("a", 1)]⟩ : Dict Nat)).get? "b" = some 1 ∧
+    (renameFixed [("a", "b")] (renameFixed [("a", "b")] (⟨[("a", 1)]⟩ : Dict Nat))).get? "b" = none := by decide
 
 end Flatten
